@@ -109,7 +109,72 @@ def construct_in_history(specs, bks, i, shared):
     return cls(data, options=o)
 
 
+NESTED = ["margin", "labelPadding", "labella", "latex"]
+_MODULE_SNAPSHOT = {}
+
+
+def module_snapshot():
+    import labella.timeline as TL
+    D = TL.DEFAULT_OPTIONS
+    return {k: repr(D[k]) for k in NESTED} | {"scale": repr([str(x) for x in D["scale"].domain()]), "keys": sorted(D)}
+
+
+def gen_objs_case(rng):
+    """caller dicts (which option keys each holds) and a sequence of constructions, each with one of the dicts (possibly the same object again) or none"""
+    nd = rng.randint(0, 3)
+    ds = []
+    for _ in range(nd):
+        keys = [k for k in ["direction", "margin", "labelPadding", "labella", "latex", "scale"] if rng.random() < 0.4]
+        rng.shuffle(keys)
+        ds.append(keys)
+    cs = [rng.choice([None] + list(range(nd))) for _ in range(rng.randint(1, 4))]
+    return ds, cs
+
+
+def run_objs_case(ds, cs):
+    """build the caller dicts, construct the timelines, and describe the object graph afterwards (identities, not values)"""
+    import labella.timeline as TL
+    from labella.scale import TimeScale
+    from datetime import datetime
+    mk = {"direction": lambda: "up", "margin": lambda: {"left": 10, "right": 10, "top": 10, "bottom": 10}, "labelPadding": lambda: {"left": 1, "right": 1, "top": 1, "bottom": 1},
+          "labella": lambda: {"nodeSpacing": 4}, "latex": lambda: {"fontsize": "10pt"}, "scale": lambda: TimeScale()}
+    callers, supplied = [], {}
+    for j, keys in enumerate(ds):
+        d = {}
+        for k in keys:
+            d[k] = mk[k]()
+            if k != "direction":
+                supplied[(j, k)] = d[k]
+        callers.append(d)
+    tls = []
+    for i, c in enumerate(cs):
+        data = [{"time": datetime(2000 + i, 1, 1 + 3 * q), "width": 20, "text": "t"} for q in range(3)]
+        tls.append(TL.TimelineSVG(data, options=callers[c]) if c is not None else TL.TimelineSVG(data))
+    D = TL.DEFAULT_OPTIONS
+    rows = []
+    for i, tl in enumerate(tls):
+        cells = []
+        for k in NESTED + ["scale"]:
+            obj = tl.options.get(k)
+            if obj is D[k]:
+                v = "module"
+            else:
+                who = [j for (j, kk), o in supplied.items() if kk == k and o is obj]
+                if who:
+                    v = "caller:%d" % who[0]
+                else:
+                    earlier = [q for q in range(i) if tls[q].options.get(k) is obj]
+                    v = "shared:%d" % earlier[0] if earlier else "fresh"
+            cells.append("%s=%s" % (k, v))
+        rows.append(",".join(cells))
+    keys_after = ";".join("+".join(d.keys()) for d in callers)
+    mod = "ok" if module_snapshot() == _MODULE_SNAPSHOT["at-import"] else "changed"
+    return "objs|%s|%s|%s|%s|module=%s" % (";".join(",".join(k) for k in ds), ";".join("-" if c is None else str(c) for c in cs), ";".join(rows), keys_after, mod)
+
+
 def body_c10(tier, seed, rep, only_prop=False, scale=1):
+    if "at-import" not in _MODULE_SNAPSHOT:
+        _MODULE_SNAPSHOT["at-import"] = module_snapshot()
     import ref_export as RE
     rng = rng_for(seed, "c10")
     n = common.count(tier, 200, 1500) * scale
@@ -157,9 +222,35 @@ def body_c10(tier, seed, rep, only_prop=False, scale=1):
                 break
         if ok and obs:
             lines.append("proc|%s|%s" % (";".join(enc), ";".join(obs))); metas.append(meta)
+    # the object graph the constructor leaves behind (who shares which option object with whom; what was written into the caller's dict and into
+    # the module-level defaults) against the transliteration Options.construct (Props/C10: construct_frame, second_timeline_leaves_first_alone)
+    rng2 = rng_for(seed, "c10-objs")
+    for _ in range(common.count(tier, 300, 4000) * scale):
+        ds, cs = gen_objs_case(rng2)
+        meta = {"kind": "objs", "dicts": ds, "constructs": cs}
+        try:
+            lines.append(run_objs_case(ds, cs)); metas.append(meta)
+        except Exception as e:
+            rep.prop_fail.append(("C10: constructing timelines from these option dicts raised %s: %s" % (type(e).__name__, e), {"case": meta}))
     answers = drive(lines)
     for line, meta, ans in zip(lines, metas, answers):
         f = fields(ans)
+        if f["_cmd"] == "objs":
+            rep.case(line, nontrivial=int(f["n"]) > 1, sample={"case": meta, "driver": ans[:300]} if rep.dist.get("objs", 0) < 2 else None)
+            rep.count("objs"); rep.count("objs same=" + f["same"])
+            if f["model"] != "ok":
+                rep.model_fail = True
+            if f["same"] != "ok":
+                # the graph differs from the transliteration: a property failure when it shows sharing between timelines, a write into the module
+                # defaults or into the caller's dict beyond `latex`; otherwise a broken correspondence
+                obs = line.split("|")
+                sharing = "shared:" in obs[3] or obs[5] != "module=ok" or any(set(a.split("+")) - set(b.split(",")) - {"latex", ""} for a, b in zip(obs[4].split(";"), obs[1].split(";")))
+                payload = {"case": meta, "driver_line": line, "driver_answer": ans}
+                if sharing:
+                    rep.prop_fail.append(("C10: timelines share an option object they should each own, or the constructor wrote into the module defaults / the caller's dict: " + line.split("|", 3)[3], payload))
+                elif not only_prop:
+                    rep.corr_fail.append(("the option object graph differs from the model: " + ans, payload))
+            continue
         rep.count("legacyWouldBreak=" + f["legacyWouldBreak"])
         if f["model"] != "ok":
             rep.model_fail = True
@@ -235,6 +326,14 @@ def run(pid, tier, seed, replay=None):
             r = json.load(fh)
         m = r["case"]
         r2 = Report(pid, tier, seed)
+        if pid == "C10" and m.get("kind") == "objs":
+            _MODULE_SNAPSHOT["at-import"] = module_snapshot()
+            line = run_objs_case(m["dicts"], m["constructs"])
+            ans = drive([line])[0]
+            print("replay:", ans[:300])
+            bad = fields(ans)["same"] != "ok"
+            print("VIOLATION property=%s replay=%s" % (pid, replay) if bad else "replay: holds now")
+            return 1 if bad else 0
         if pid == "C10":
             cache = {}
             specs, bks, ops = m["specs"], m["backends"], [tuple(o) for o in m["ops"]]
